@@ -236,8 +236,10 @@ func (ex *exampleValidator) validateExampleValueSchemaAgainstSchema(path, in str
 	res := pools.poolOfResults.BorrowResult()
 
 	if schema.Example != nil {
+		// building the validator expands a $ref schema in place, which replaces its Example: read the value first
+		value := schema.Example
 		res.MergeAsWarnings(
-			newSchemaValidator(schema, s.spec.Spec(), path+".example", s.KnownFormats, ex.schemaOptions).Validate(schema.Example),
+			newSchemaValidator(schema, s.spec.Spec(), path+".example", s.KnownFormats, ex.schemaOptions).Validate(value),
 		)
 	}
 	if schema.Items != nil {
